@@ -74,6 +74,26 @@ patch('ttl-add-lock-first', 'expirationMap.add computes the bucket under the loc
 	defer m.Unlock()
 	bucketNum := m.sweepableBucket(storageBucket(expiration))''')])
 
+patch('applier-rejects-oversized-itself', 'the applier turns an item larger than the whole cache away itself, before asking the policy (C09 allows that cause)',
+      [('cache.go', """				verifEvent(verifEvApplierNew, i.Key, i.Cost, 0)
+				victims, added := c.cachePolicy.Add(i.Key, i.Cost)""", """				verifEvent(verifEvApplierNew, i.Key, i.Cost, 0)
+				if i.Cost > c.cachePolicy.MaxCost() {
+					c.onReject(i)
+					verifEvent(verifEvApplierDone, i.Key, int64(i.flag), 0)
+					continue
+				}
+				victims, added := c.cachePolicy.Add(i.Key, i.Cost)""")])
+patch('applier-rejects-resident-itself', 'the applier turns a newcomer whose key is already accounted away itself (after updating its cost as Add would), before asking the policy',
+      [('cache.go', """				verifEvent(verifEvApplierNew, i.Key, i.Cost, 0)
+				victims, added := c.cachePolicy.Add(i.Key, i.Cost)""", """				verifEvent(verifEvApplierNew, i.Key, i.Cost, 0)
+				if i.Cost <= c.cachePolicy.MaxCost() && c.cachePolicy.Has(i.Key) {
+					c.cachePolicy.Update(i.Key, i.Cost)
+					c.onReject(i)
+					verifEvent(verifEvApplierDone, i.Key, int64(i.flag), 0)
+					continue
+				}
+				victims, added := c.cachePolicy.Add(i.Key, i.Cost)""")])
+
 for name, why, edits in P:
     sh('git checkout -q -- .')
     ok = True
